@@ -72,6 +72,24 @@ var c19Names = []string{"..", "../x", "../../x", "../../../x", "a/../../x", "/ab
 	"../../../../../../../../tmp/verif_c19_escape", "sub/../../y", "....//x", "..\\x", ".", "", "a/b/c", "../work/../z", "~/x", "\x00", "a\x00../x", "../\x00x",
 	"/", "./", "../", "a/..", "./.", "../newdir/", "..\\..\\victim.txt", "..\\..\\planted\\n.bin", "x/../../../y/", "../x/", "..//..//x"}
 
+// names built as  <climbing prefix> + <odd last component> + <odd suffix>: sanitisers that clean, trim, decode or cut in some
+// order are sensitive to components made of dots, blanks, backslashes, percent escapes and control bytes
+func init() {
+	prefixes := []string{"../", "../../", "../../../", "/", "a/../../", "./../", "..//", "..\\", ""}
+	lasts := []string{".", "..", "...", "....", " ", "  ", ". .", " .", ". ", " ..", ".. ", "\t", "x.", "x ", "x..", ".x", "..x", "~", "%2e%2e", "..%2f..%2fx", "\\", ".\\..", "*", "?", "x\x00", "\x00", "..\x00", "x\n", "\r", "CON", "x:y", "-", "--", ".hidden", "..hidden"}
+	suffixes := []string{"", "/", " ", ".", "/.", "/..", "\x00", "//"}
+	for _, p := range prefixes {
+		for _, l := range lasts {
+			for si, sfx := range suffixes {
+				if si > 0 && (len(p)+len(l))%3 != si%3 { // thin out the suffixed forms
+					continue
+				}
+				c19Names = append(c19Names, p+l+sfx)
+			}
+		}
+	}
+}
+
 func c19Worker(c *core.Collector, x *Ctx) {
 	c.Rule = "upload sessions against the DEFAULT file handler in a sandbox cwd: announced names from a list of traversal / absolute / separator forms, names equal to existing files outside the terminal directory, 50-byte and 255-byte names made of '../', NUL-containing, empty and random byte names, several files per session, " +
 		"with and without uploaded content (unique payload token per file); oracle = recursive before/after snapshot of the sandbox tree. evaluation = one announced file; distinct by hash of (phone, name)"
@@ -125,11 +143,22 @@ func c19Worker(c *core.Collector, x *Ctx) {
 		}
 		phone := ref.PhoneString(bcd)
 		nf := 1 + g.Intn(3)
+		sweep := -1
+		if x.Batch == 0 && i < (len(c19Names)+5)/6 {
+			sweep, nf = i*6, 6 // the first sessions of batch 0 go through the whole name list, six names each
+		}
 		var files []att.File
 		s := sess{phone: phone}
 		for k := 0; k < nf; k++ {
 			var name []byte
-			switch g.Intn(8) {
+			pick := g.Intn(8)
+			if sweep >= 0 {
+				pick = 100
+			}
+			switch pick {
+			case 100:
+				name = []byte(c19Names[(sweep+k)%len(c19Names)])
+				c.Count("names_from_the_list_swept", 1)
 			case 6: // names built from the terminal's own phone: sibling directories that merely START with the phone
 				name = []byte(core.Pick(g.Rand, []string{"../" + phone + "1/f", "../" + phone + "x", "../" + phone + ".bak/f", "../" + phone + "/../" + phone + "0/g", "../" + phone + "_"}))
 			case 7: // another terminal's directory
